@@ -190,4 +190,84 @@ theorem findByValue_order_irrelevant {K V : Type} [DecidableEq V] (ty : V) {l l'
     rw [ih1 hn]
     exact ih2 ((p1.map (·.2)).nodup_iff.mp hn)
 
+/-! ### composite -/
+
+/-- a schedule is a possible execution of the given block: the same plugin names, the same merkle children (one result
+per index), the same signature verdicts distributed over ≥ 1 workers, the same cache entries — in some order. -/
+structure Admissible {Name Hash K V : Type} (names : List Name) (n : Nat) (child : Nat → Hash) (verdicts : List Bool)
+    (entries : List (K × V)) (s : Sched Name Hash K V) : Prop where
+  plugins : s.pluginOrder.Perm names
+  merkle : s.merkleArrivals.Perm ((List.range n).map (fun i => (i, child i)))
+  workers : 1 ≤ s.workers
+  takesLen : s.takes.length = verdicts.length
+  takesLt : ∀ t ∈ s.takes, t < s.workers
+  sigs : s.sigArrivals.Perm (workerResults s.workers s.takes verdicts).flatten
+  merge : s.mergeOrder.Perm entries
+
+/-- **two runs, partial composite**: whatever the Go runtime chooses in two executions of the same block (map iteration
+orders, goroutine completion orders, number of signature workers and which of them takes which transaction), the
+modelled helpers contribute the same sorted plugin list, merkle child list, signature verdict, de-duplicated KV set,
+checkKV verdict and merged cache. PARTIAL with respect to the property: the transaction execution inside the dapp
+drivers, the state tree and the database are not part of the model (they are compared by the repeated-execution
+predicate), and `pluginBase.flag` is treated separately below. -/
+theorem two_runs_equal_partial {Name Hash K V : Type} [DecidableEq K] {le : Name → Name → Bool} (hle : LinOrd le)
+    (names : List Name) (n : Nat) (child : Nat → Hash) (verdicts : List Bool) (entries : List (K × V))
+    (hn : (entries.map (·.1)).Nodup) (receiptKVs : List (K × V)) (memset : List K) (cache0 : K → Option V)
+    (s1 s2 : Sched Name Hash K V) (h1 : Admissible names n child verdicts entries s1)
+    (h2 : Admissible names n child verdicts entries s2) :
+    (runHelpers le n receiptKVs memset cache0 s1).plugins = (runHelpers le n receiptKVs memset cache0 s2).plugins ∧
+    (runHelpers le n receiptKVs memset cache0 s1).children = (runHelpers le n receiptKVs memset cache0 s2).children ∧
+    (runHelpers le n receiptKVs memset cache0 s1).sigOk = (runHelpers le n receiptKVs memset cache0 s2).sigOk ∧
+    (runHelpers le n receiptKVs memset cache0 s1).kvs = (runHelpers le n receiptKVs memset cache0 s2).kvs ∧
+    (runHelpers le n receiptKVs memset cache0 s1).kvAllowed = (runHelpers le n receiptKVs memset cache0 s2).kvAllowed ∧
+    (runHelpers le n receiptKVs memset cache0 s1).cache = (runHelpers le n receiptKVs memset cache0 s2).cache := by
+  refine ⟨?_, ?_, ?_, rfl, rfl, ?_⟩
+  · exact plugins_order_irrelevant hle (h1.plugins.trans h2.plugins.symm)
+  · simp only [runHelpers]
+    rw [fanin_by_index n child _ h1.merkle, fanin_by_index n child _ h2.merkle]
+  · simp only [runHelpers]
+    rw [verify_worker_count_irrelevant _ h1.workers _ verdicts h1.takesLen h1.takesLt _ h1.sigs,
+      verify_worker_count_irrelevant _ h2.workers _ verdicts h2.takesLen h2.takesLt _ h2.sigs]
+  · simp only [runHelpers]
+    have hn1 : (s1.mergeOrder.map (·.1)).Nodup := (h1.merge.map (·.1)).nodup_iff.mpr hn
+    exact merge_order_irrelevant cache0 (h1.merge.trans h2.merge.symm) hn1
+
+/-- non-vacuity: two different admissible schedules of one block. -/
+example :
+    Admissible (Name := Nat) (Hash := Nat) (K := Nat) (V := Nat) [1, 2] 2 (fun i => i + 10) [true, false] [(5, 6)]
+      { pluginOrder := [2, 1], merkleArrivals := [(1, 11), (0, 10)], workers := 2, takes := [1, 0], sigArrivals := [false, true],
+        mergeOrder := [(5, 6)] } ∧
+    Admissible (Name := Nat) (Hash := Nat) (K := Nat) (V := Nat) [1, 2] 2 (fun i => i + 10) [true, false] [(5, 6)]
+      { pluginOrder := [1, 2], merkleArrivals := [(0, 10), (1, 11)], workers := 1, takes := [0, 0], sigArrivals := [true, false],
+        mergeOrder := [(5, 6)] } := by
+  constructor <;> exact ⟨by decide, by decide, by decide, by decide, by decide, by decide, by decide⟩
+
+/-! ### pluginBase.flag -/
+
+/-- **genesis is history-independent**: at height 0 an enabled flag-based plugin emits exactly the flag KV, whatever
+the global plugin instance cached in earlier activity of the process and whatever the database holds. (The seeded
+regression C13 broke exactly this.) -/
+theorem checkFlag_genesis_history_independent (cached cached' db db' : Nat) :
+    (checkFlag true cached db 0).1 = .ok [1] ∧ (checkFlag true cached db 0).1 = (checkFlag true cached' db' 0).1 := by
+  simp [checkFlag]
+
+/-- above height 0 the outcome is a function of the database alone as long as the cached value came from THIS database
+(`cached ≠ 0 → db ≠ 0`). -/
+theorem checkFlag_history_independent_consistent (en : Bool) (c1 c2 db height : Nat) (h1 : c1 ≠ 0 → db ≠ 0)
+    (h2 : c2 ≠ 0 → db ≠ 0) : (checkFlag en c1 db height).1 = (checkFlag en c2 db height).1 := by
+  unfold checkFlag
+  cases en with
+  | false => simp
+  | true =>
+    simp only [Bool.not_true, Bool.false_eq_true, if_false]
+    by_cases e1 : c1 = 0 <;> by_cases e2 : c2 = 0 <;> by_cases eh : height = 0 <;> by_cases ed : db = 0 <;>
+      simp_all
+
+/-- ... and it IS history-dependent otherwise (unchanged code): on a database that lacks the flag (synchronised without
+the plugin) a fresh process refuses height 5 with ErrDBFlag, a process whose global plugin instance already executed
+another chain's genesis carries on. Outside the property's "same prior state" only in the sense that such a database is
+what the check is there to reject; listed as a site, covered by the repeated-execution predicate for consistent chains. -/
+theorem checkFlag_history_dependent_on_flagless_db :
+    (checkFlag true 0 0 5).1 = .err ∧ (checkFlag true 1 0 5).1 = .ok [] := by decide
+
 end C13
